@@ -1,5 +1,6 @@
 import HqModel.Props.C03Restart
 import HqModel.Lemmas.CoreSteps
+import HqModel.Lemmas.CoreMsgWitness
 /-!
 # C03 — dependencies: never start early; failure/cancel propagates
 
@@ -21,5 +22,59 @@ theorem c03_not_ready_with_deps (s : State) (nt : NewTask) (s' : State) (r : Lis
 
 /-- non-vacuity: task (1,1) depends on the unfinished task (1,0): count 1 -/
 example : (registerDeps [{ id := (1, 0) }] (1, 1) [(1, 0)]).2.2 = 1 := by decide
+
+/-! ## Message level: what the server SENDS, for all runs
+
+`Core.sends msgs` (used in the examples) lists the `(task id, instance id)` pairs of the compute messages of a
+message list. The statements below are about every `Msg.compute` in the output of an operation.
+
+"Every dependency has finished" in the vocabulary of the model: `on_new_tasks` registers a new task as a consumer
+of every dependency that is in the map (`registerDeps`; a dependency that already left the map has finished — a
+failed / cancelled one takes its dependents with it, F16); `task_finished` wakes the consumers and removes the
+finished task from the map; nothing else removes a consumer entry of a live consumer. So a task of the map has an
+unfinished dependency exactly as long as some task of the map lists it as a consumer. -/
+
+/-- **Only ready tasks are sent — one operation.** For every state satisfying the global invariant `Core.Inv`,
+every operation (with its side condition `OpOk2`: a scheduling round starts from queues that pass the queue clause
+of the sanity checks `QueueOkD`, a Reject comes from the task's worker) and every compute message the operation
+emits — in a scheduling round (assignments, prefills, multi-node placements), as the redirect send of a retract
+response / a reject, or for a task retracted from a lost worker —: every task named in the message is a task of
+the map of the state the operation is applied to, and NO task of that map lists it as a consumer. -/
+theorem c03_compute_only_ready (s s' : State) (op : Op) (out : Out) (hi : Core.Inv s) (hok : Core.OpOk2 s op)
+    (h : Core.step s op = .ok (s', out)) (w : Nat) (items : List (TaskId × Nat × Option Nat × List Nat))
+    (hm : Msg.compute w items ∈ out.msgs) (it : TaskId × Nat × Option Nat × List Nat) (hit : it ∈ items) :
+    (∃ task, s.task? it.1 = some task) ∧ ∀ dt ∈ s.tasks, it.1 ∉ dt.consumers :=
+  Core.step_ready hi hok h (it.1, it.2.1) (Core.mem_sends.mpr ⟨w, items, it, hm, hit, rfl⟩)
+
+/-- **Only ready tasks are sent — every step of every run** from the empty core whose operations satisfy the side
+conditions (`pre` = the operations before the step, `post` = those after it). -/
+theorem c03_compute_only_ready_run (pre post : List Op) (op : Op) (s s' : State) (out out' : Out)
+    (hok : Core.RunOk Core.OpOk2 {} (pre ++ op :: post)) (hrun : Core.run {} pre = .ok (s, out))
+    (hstep : Core.step s op = .ok (s', out')) (w : Nat) (items : List (TaskId × Nat × Option Nat × List Nat))
+    (hm : Msg.compute w items ∈ out'.msgs) (it : TaskId × Nat × Option Nat × List Nat) (hit : it ∈ items) :
+    (∃ task, s.task? it.1 = some task) ∧ ∀ dt ∈ s.tasks, it.1 ∉ dt.consumers := by
+  obtain ⟨h1, h2⟩ := Core.RunOk.split pre _ _ _ _ hok hrun
+  exact c03_compute_only_ready s s' op out' (Core.run_inv h1 hrun) h2.1 hstep w items hm it hit
+
+/-- **A task with an unfinished dependency is held back in every reachable state**: every registered consumer of a
+task in the map is Waiting — never Assigned, Prefilled, Retracting, Running, RunningMultiNode or Finished
+(`CW3`, part of the global invariant, lifted through `run_inv`). -/
+theorem c03_consumers_waiting_reachable (ops : List Op) (s : State) (out : Out)
+    (hok : Core.RunOk Core.OpOk2 {} ops) (hrun : Core.run {} ops = .ok (s, out))
+    (d c : TaskId) (dt ct : Task) (hd : s.task? d = some dt) (hc : c ∈ dt.consumers) (hct : s.task? c = some ct) :
+    ∃ n, ct.state = .waiting n := by
+  have := (Core.run_inv hok hrun).cw d dt hd c hc ct.state (Core.stOf_of_find hct)
+  cases hs : ct.state <;> rw [hs] at this <;> first | exact ⟨_, rfl⟩ | exact this.elim
+
+/-- non-vacuity: the run `Core.depOps` (task (1,1) depends on task (1,0)) satisfies all side conditions; the server
+sends (1,0) first, hears Running and Finished, and only then sends (1,1) -/
+example : Core.RunOk Core.OpOk2 {} Core.depOps ∧
+    Core.runSends Core.depOps = some ([((1, 0), 0), ((1, 1), 0)], [((1, 0), 0)]) :=
+  ⟨Core.RunOk.mono (fun _ _ h => h.1.ok2) _ _ Core.depOps_ok.1, Core.depOps_ok.2.2⟩
+
+/-- … and while (1,0) is unfinished, (1,1) is a registered consumer of it and Waiting 1 -/
+example : ((Core.run {} (Core.depOps.take 5)).toOption.map fun r =>
+    r.1.tasks.map fun t => (t.id, t.consumers, t.state)) =
+    some [((1, 0), [(1, 1)], .running 1 0), ((1, 1), [], .waiting 1)] := by decide
 
 end HqModel.C03
